@@ -429,85 +429,120 @@ def histories(depth):
     return out
 
 
+H1 = ["S", "L", "R"]
+H2 = H1 + ["".join(t) for t in itertools.product("SLR", repeat=2)]
+H3 = H2 + ["".join(t) for t in itertools.product("SLR", repeat=3)]
+HPAIR = ["S", "L", "R", "SR", "SS", "RS"]
+
+QUICK_RULES = [
+    "Q1 listening peer, plain auto-ack and ACK payloads (send_only off), ard=250: every history of <= 2 calls when (1+arc)(1+fr) <= 4; "
+    "{S,L,R,SR,SS,RS} for 5..8 attempts; {S,R,SR} for 9..16 attempts (arc 2/3); arc=15: {S,SR} for fr<=1, {S} for fr>=2",
+    "Q2 same modes, ard 1500 and 4000: {S,SR} for <= 8 attempts, {S} for 9..16 attempts, arc=15: {S} with fr=0",
+    "Q3 ACK payloads with send_only=True (ard=250): {S,L,R,SR,SS,RS} for <= 4 attempts, {S,SR} for 5..8 attempts and for arc=15/fr=0; "
+    "send_only=True without ACK payloads is left to the thorough tier (the PTX never receives a payload there)",
+    "Q4 ask_no_ack and auto-ack off (binary choices, one transmission per payload): every history of <= 2 calls, every (arc,fr), ard=250; "
+    "ard 1500/4000 for (arc,fr) in {(0,0),(3,1),(15,3)}",
+    "Q5 deaf peer (one execution per history), every mode: every history of <= 2 calls for arc <= 3 (all ard, all fr); arc=15: ard=250 "
+    "{S,L,R,SR,SS,RS} for fr<=1, {S,SR} for fr>=2; ard 1500/4000 {S,SR} for fr=0 only",
+    "Q6 send_only alternating per call (True on the 1st call, False on the 2nd): ACK payloads, (arc,fr) in {(0,0),(1,0),(0,1)}, ard=250, {SS,SL,LS,SR,RS}",
+    "Q7 SPI transaction cost 30 us; 12 us and 100 us for (arc,fr)=(1,1), ard=250, plain and ACK payloads, {S,SR,SS,RS}",
+]
+THOROUGH_RULES = [
+    "T1 listening peer, acked modes (plain, ACK payloads with send_only off/on): (1+arc)(1+fr) <= 8: histories of <= 3 calls for ard=250 and <= 4 attempts, "
+    "<= 2 calls for ard=250 or <= 4 attempts, else {S,L,R,SR,SS,RS}; arc 2/3 with > 8 attempts: <= 2 calls; arc=15: ard=250 {S,L,R,SR,SS,RS} for fr<=1, "
+    "{S,SR} for fr>=2; other ard {S,SR} for fr<=1",
+    "T2 send_only=True without ACK payloads: (arc,fr) in {(0,0),(1,1),(3,0)}",
+    "T3 ask_no_ack / auto-ack off: every history of <= 3 calls, every (arc,fr,ard)",
+    "T4 deaf peer: histories of <= 3 calls; arc=15: <= 2 calls when fr>1 or ard=4000",
+    "T5 send_only alternating per call: ACK payloads, (arc,fr) in {(0,0),(1,0),(0,1),(1,1)}, ard {250,1500}, every history of 2..3 calls",
+    "T6 SPI cost 12 us and 100 us: (arc,fr) in {(0,1),(1,1),(1,0),(3,1)} x ard {250,1500} x acked modes, histories of <= 2 calls",
+]
+
+
+def quick_hists(arc, ard, fr, mode, so, listen):
+    n = (1 + arc) * (1 + fr)
+    if not listen:
+        if so and mode != "ackpl":
+            return None
+        if arc < 15:
+            return H2
+        if ard == 250:
+            return HPAIR if fr <= 1 else ["S", "SR"]
+        return ["S", "SR"] if fr == 0 else None
+    if mode not in ACKED:
+        if so:
+            return None
+        return H2 if (ard == 250 or (arc, fr) in ((0, 0), (3, 1), (15, 3))) else None
+    if so:
+        if mode != "ackpl" or ard != 250:
+            return None
+        return HPAIR if n <= 4 else (["S", "SR"] if (n <= 8 or (arc, fr) == (15, 0)) else None)
+    if ard == 250:
+        if arc == 15:
+            return ["S", "SR"] if fr <= 1 else ["S"]
+        return H2 if n <= 4 else (HPAIR if n <= 8 else ["S", "R", "SR"])
+    if arc == 15:
+        return ["S"] if fr == 0 else None
+    return ["S", "SR"] if n <= 8 else ["S"]
+
+
+def thorough_hists(arc, ard, fr, mode, so, listen):
+    n = (1 + arc) * (1 + fr)
+    if so and mode != "ackpl" and (arc, fr) not in ((0, 0), (1, 1), (3, 0)):
+        return None
+    if not listen:
+        if arc == 15:
+            return H2 if (fr > 1 or ard == 4000) else H3
+        return H3
+    if mode not in ACKED:
+        return H3
+    if arc == 15:
+        if ard == 250:
+            return HPAIR if fr <= 1 else ["S", "SR"]
+        return ["S", "SR"] if fr <= 1 else None
+    if n <= 8:
+        return H3 if (ard == 250 and n <= 4) else (H2 if (ard == 250 or n <= 4) else HPAIR)
+    return H2
+
+
 def plan(tier, tx_cls="full", rx_cls="full"):
     """-> (items [(fc, [hist...])], strat, bounds-dict describing the grid and its pruning)"""
     lite = "lite" in (tx_cls, rx_cls)
     quick = tier == "quick"
-    depth = 2 if quick else 3
-    hs_all = histories(depth)
-    hs1 = histories(1)
-    hs2 = histories(2)
     strat = dict(T=8, K=2) if quick else dict(T=10, K=3, Ktot=32, K2=2)
     modes = [m for m in MODES if not (lite and m == "noaa")]
+    rule = quick_hists if quick else thorough_hists
     items = []
     for arc in ARCS:
         for fr in range(4):
-            n = (1 + arc) * (1 + fr)
             for ard in ARDS:
                 for mode in modes:
                     for so in (False, True):
                         for listen in (True, False):
-                            hs = None
-                            if so and mode != "ackpl" and (quick or (arc, fr) not in ((0, 0), (1, 1), (3, 0))):
-                                continue  # send_only cannot matter without ACK payloads (P1)
-                            if not listen:
-                                # one execution per history (nothing to choose)
-                                if arc == 15 and quick:
-                                    hs = hs1 if (fr > 1 or ard == 4000) else hs2
-                                elif arc == 15:
-                                    hs = hs2 if (fr > 1 or ard == 4000) else hs_all
-                                else:
-                                    hs = hs_all
-                            elif mode not in ACKED:
-                                hs = hs_all  # binary choices, one transmission per payload: always complete
-                            elif n <= 8:
-                                if quick:
-                                    hs = hs_all if (ard == 250 or n <= 4) else hs1 + ["SR", "SS", "RS"]
-                                else:
-                                    hs = hs_all if (ard == 250 and n <= 4) else (hs2 if (ard == 250 or n <= 4) else hs1 + ["SR", "SS", "RS"])
-                            elif arc < 15:  # arc 2,3 with 9..16 attempts: switch-bounded
-                                if quick:
-                                    hs = hs2 if ard == 250 else hs1
-                                else:
-                                    hs = hs2
-                            else:  # arc = 15: switch-bounded, 16..64 attempts per payload
-                                if quick:
-                                    hs = (["S", "R", "SR"] if fr <= 1 else ["S"]) if ard == 250 else (["S"] if fr == 0 else None)
-                                else:
-                                    hs = (hs1 + ["SR", "SS", "RS"] if fr <= 1 else ["S", "SR"]) if ard == 250 else (["S", "SR"] if fr <= 1 else None)
+                            hs = rule(arc, ard, fr, mode, so, listen)
                             if hs:
                                 items.append((mk_fc(arc, ard, fr, mode, so, listen, tx_cls, rx_cls), list(hs)))
     # send_only alternating between the calls of one history (ACK payloads left in / flushed from the PTX RX FIFO)
-    for arc, fr in ((0, 0), (1, 0), (0, 1), (1, 1)):
+    for arc, fr in ((0, 0), (1, 0), (0, 1)) if quick else ((0, 0), (1, 0), (0, 1), (1, 1)):
         for ard in (250,) if quick else (250, 1500):
-            items.append((mk_fc(arc, ard, fr, "ackpl", "alt", True, tx_cls, rx_cls), [h for h in (hs2 if quick else hs_all) if len(h) > 1]))
-    if True:
-        # SPI cost (polling period) classes: 12 us and 100 us on the small configurations
-        for cost in (12, 100):
-            for arc, fr in ((1, 1),) if quick else ((0, 1), (1, 1), (1, 0), (3, 1)):
-                for ard in (250,) if quick else (250, 1500):
-                    for mode, so in (("plain", False), ("ackpl", False), ("ackpl", True)):
-                        items.append((mk_fc(arc, ard, fr, mode, so, True, tx_cls, rx_cls, cost), list(hs2)))
+            items.append((mk_fc(arc, ard, fr, "ackpl", "alt", True, tx_cls, rx_cls),
+                          ["SS", "SL", "LS", "SR", "RS"] if quick else [h for h in H3 if len(h) > 1]))
+    # SPI cost (polling period) classes
+    for cost in (12, 100):
+        for arc, fr in ((1, 1),) if quick else ((0, 1), (1, 1), (1, 0), (3, 1)):
+            for ard in (250,) if quick else (250, 1500):
+                for mode, so in (("plain", False), ("ackpl", False)) if quick else (("plain", False), ("ackpl", False), ("ackpl", True)):
+                    items.append((mk_fc(arc, ard, fr, mode, so, True, tx_cls, rx_cls, cost), ["S", "SR", "SS", "RS"] if quick else list(H2)))
     bounds = dict(
         choice="per data transmission of the PTX: delivered | packet lost | ACK lost (binary delivered|lost when no ACK is requested; none when the peer does not listen)",
-        history_depth=depth, calls="S=send(p) L=send([p,q]) R=resend(); every sequence up to history_depth unless pruned below; all payloads distinct",
+        history_depth=2 if quick else 3, calls="S=send(p) L=send([p,q]) R=resend(); all payloads of a history are distinct",
         complete_tree_when="sum over the history of allowed transmissions <= %d (then every loss pattern is enumerated: bound = tree height)" % strat["T"],
         otherwise="loss-kind switch encoding (choice = change of kind relative to the previous transmission) explored up to %s "
                   "(covers: all lost, all ack-lost, k failures then success for every k, lost-then-ack-lost for every k ...); this applies to all arc=15 configurations"
                   % ("%d switches" % strat["K"] if "Ktot" not in strat else
                      "%d switches when the history allows <= %d transmissions, %d switches beyond" % (strat["K"], strat["Ktot"], strat["K2"])),
         grid="arc {0,1,2,3,15} x ard {250,1500,4000} x force_retry 0..3 x mode {plain auto-ack, ackpl, ask_no_ack, auto-ack off} x send_only x peer {listening, deaf}",
-        pruning=[
-            "P1 send_only=True only with ACK payloads (quick); thorough adds it for (arc,fr) in {(0,0),(1,1),(3,0)} in the other modes",
-            "P2 listening, acked modes, (1+arc)(1+fr) <= 8: " + ("all histories for ard=250 or <= 4 attempts, else {S,L,R,SR,SS,RS}" if quick else
-                                                            "depth 3 for ard=250 and <= 4 attempts, depth 2 for ard=250 or <= 4 attempts, else {S,L,R,SR,SS,RS}"),
-            "P3 arc 2/3 with > 8 attempts: " + ("depth 2 for ard=250, depth 1 otherwise" if quick else "depth 2"),
-            "P4 arc=15: " + ("ard=250: {S,R,SR} for fr<=1, {S} for fr>=2; other ard: {S} with fr=0" if quick else
-                             "ard=250: {S,L,R,SR,SS,RS} for fr<=1, {S,SR} for fr>=2; other ard: {S,SR} for fr<=1"),
-            "P5 deaf peer (single execution per history): arc=15 " + ("depth 1 when fr>1 or ard=4000, else depth 2" if quick else "depth 2 when fr>1 or ard=4000, else depth 3"),
-            "P7 send_only alternating per call (True on the 1st/3rd call): ACK-payload mode, (arc,fr) in {(0,0),(1,0),(0,1),(1,1)}, ard " + ("250" if quick else "{250,1500}") + ", histories of >= 2 calls",
-            "P6 SPI cost 30 us; plus 12 us and 100 us on " + ("(arc,fr)=(1,1), ard 250" if quick else "(arc,fr) in {(0,1),(1,1),(1,0),(3,1)} x ard {250,1500}") + " x acked modes, depth 2",
-        ],
+        pruning=QUICK_RULES if quick else THOROUGH_RULES,
         tx_cls=tx_cls, rx_cls=rx_cls)
     return items, strat, bounds
 
